@@ -199,8 +199,10 @@ impl Prop for C07Prop {
             Err(_) => fail("C07.buffer-encoder-oom-without-fault", "encode::<Vec> returned OutOfMemory without any injected failure".into(), &mut violation),
         }
 
-        // 2. iterator encoder, fused inner iterator, then polled past the end
-        for nonfused in [false, true] {
+        // 2. iterator encoder over three kinds of sources - exact size hint (slice), no hint (and not
+        //    fused), loose upper bound (filter over a longer source) - then polled past the end
+        for source in 0..3 {
+            let nonfused = source == 1;
             let mut out = Vec::with_capacity(want.len() + 8);
             let mut after_end_some = 0usize;
             let mut ended = false;
@@ -228,7 +230,14 @@ impl Prop for C07Prop {
                     }
                 }
             };
-            if nonfused {
+            if source == 2 {
+                // p interleaved with marker positions that the filter removes again: the inner
+                // iterator's upper bound exceeds what it yields by `junk` (not a multiple of four)
+                let junk = 1 + (p.len() + l.extra_polls) % 7;
+                let total = p.len() + junk;
+                let mut e = sml_rs::transport::encode_streaming((0..total).filter_map(|i| p.get(i).copied()));
+                run(&mut e);
+            } else if nonfused {
                 let mut e = sml_rs::transport::encode_streaming(NonFused { p, i: 0 });
                 run(&mut e);
             } else {
@@ -238,7 +247,7 @@ impl Prop for C07Prop {
             if out != want {
                 fail(
                     "C07.iterator-encoder-format",
-                    format!("encode_streaming ({} inner iterator): {}", if nonfused { "non-fused" } else { "fused" }, first_diff(&out, &want)),
+                    format!("encode_streaming ({}): {}", ["slice source", "non-fused source without size hint", "filtered source with a loose upper size hint"][source], first_diff(&out, &want)),
                     &mut violation,
                 );
             }
